@@ -48,24 +48,33 @@ func runResel(t *testing.T, rc reselCase, onLeak func(string)) (key, desc, harne
 			return
 		}
 		w.Read()
-		w.Send(peer.Ctrl(peer.SDeselectReq, 0xFFFF, 0, 0, 0x0D5E0001))
-		if fs := w.Read(); len(fs) != 1 || fs[0].SType != peer.SDeselectRsp || fs[0].B3 != 0 || w.C.State() != hsms.NotSelectedState {
-			harness = fmt.Sprintf("deselect: answered %v, State()=%v", fs, w.C.State())
-			return
-		}
-		// deselected: answer anything the library still probes with, for the whole dwell
-		for end := w.Now() + time.Duration(rc.DwellMS)*time.Millisecond; w.Now() < end; {
-			w.Advance(100 * time.Millisecond)
-			for _, f := range w.Read() {
-				if f.SType == peer.SLinktestReq {
-					w.Send(peer.Ctrl(peer.SLinktestRsp, 0xFFFF, 0, 0, f.Sys))
+		if rc.DwellMS < 0 {
+			// pipelined: Deselect.req and Select.req in ONE segment
+			w.SendRaw(append(peer.Ctrl(peer.SDeselectReq, 0xFFFF, 0, 0, 0x0D5E0001).Bytes(), peer.Ctrl(peer.SSelectReq, 0xFFFF, 0, 0, 0x5E1E0002).Bytes()...))
+			if fs := w.Read(); len(fs) != 2 || fs[0].SType != peer.SDeselectRsp || fs[0].B3 != 0 || fs[1].SType != peer.SSelectRsp || fs[1].B3 != 0 || w.C.State() != hsms.SelectedState {
+				harness = fmt.Sprintf("pipelined deselect+select: answered %v, State()=%v", fs, w.C.State())
+				return
+			}
+		} else {
+			w.Send(peer.Ctrl(peer.SDeselectReq, 0xFFFF, 0, 0, 0x0D5E0001))
+			if fs := w.Read(); len(fs) != 1 || fs[0].SType != peer.SDeselectRsp || fs[0].B3 != 0 || w.C.State() != hsms.NotSelectedState {
+				harness = fmt.Sprintf("deselect: answered %v, State()=%v", fs, w.C.State())
+				return
+			}
+			// deselected: answer anything the library still probes with, for the whole dwell
+			for end := w.Now() + time.Duration(rc.DwellMS)*time.Millisecond; w.Now() < end; {
+				w.Advance(100 * time.Millisecond)
+				for _, f := range w.Read() {
+					if f.SType == peer.SLinktestReq {
+						w.Send(peer.Ctrl(peer.SLinktestRsp, 0xFFFF, 0, 0, f.Sys))
+					}
 				}
 			}
-		}
-		w.Send(peer.Ctrl(peer.SSelectReq, 0xFFFF, 0, 0, 0x5E1E0002))
-		if fs := w.Read(); len(fs) != 1 || fs[0].SType != peer.SSelectRsp || fs[0].B3 != 0 || w.C.State() != hsms.SelectedState {
-			harness = fmt.Sprintf("re-select: answered %v, State()=%v", fs, w.C.State())
-			return
+			w.Send(peer.Ctrl(peer.SSelectReq, 0xFFFF, 0, 0, 0x5E1E0002))
+			if fs := w.Read(); len(fs) != 1 || fs[0].SType != peer.SSelectRsp || fs[0].B3 != 0 || w.C.State() != hsms.SelectedState {
+				harness = fmt.Sprintf("re-select: answered %v, State()=%v", fs, w.C.State())
+				return
+			}
 		}
 		tSel := w.Now()
 		limit := time.Duration(rc.Threshold)*(interval+t6) + 500*time.Millisecond
@@ -111,7 +120,7 @@ func partResel(c *vfw.Ctx, t *testing.T) {
 	for _, active := range []bool{false, true} {
 		for _, thr := range []int{1, 2} {
 			for _, sup := range []bool{true, false} {
-				for _, dwell := range []int{100, 3000, 7000} { // shorter than, longer than one, longer than three intervals
+				for _, dwell := range []int{-1, 0, 100, 3000, 7000} { // -1: both requests in one segment // shorter than, longer than one, longer than three intervals
 					if !c.Next() {
 						continue
 					}
